@@ -120,3 +120,36 @@ CHECKS["C04"] = dict(
                  "column_stack / hstack etc. are driven in a separate translation unit because array::concatenate and view::concatenate are ambiguous under ADL when both headers are included"],
     min_outcomes=2000,
 )
+
+CHECKS["C08"] = dict(
+    level="exploration", engine="E1", technique=E1_TECH, level_note=E1_NOTE,
+    level_text="Every source shape of the small scope x every axis argument (None, every single axis of either sign, every non-empty subset of axes in "
+               "every order and in positive/negative/mixed spelling) x keepdims (absent, compile-time, run-time) x initial x dtype is reduced with the "
+               "real views (and their evaluation) and compared with a left fold, in increasing C order over the reduced block; the non-commutative "
+               "subtract makes fold order observable; accumulate along every axis; the named wrappers are compared with their definitions.",
+    units=[U("reduce", "harness/c08_reduce.cpp"),
+           U("reduce_san", "harness/c08_reduce.cpp", san=True, family="reduce", shadow=True, tiers=["thorough"], run_tier="quick")],
+    rule="case = (op, source shape, axis argument, option flags); non-trivial = the reduced block has >= 2 elements; distinct = distinct key",
+    bounds=dict(quick="sources S(1..4,3); ops add (full option cross), multiply, maximum (4 flag sets), subtract (single axes), minimum, logical and/or; accumulate add/multiply/subtract/maximum/minimum; wrappers sum prod amax amin mean var(ddof 0,1) stddev cumsum cumprod vector_norm(ord 1,2) trace",
+                thorough="sources S(1..4,4); every mixed-sign spelling; ASan/UBSan shadow build"),
+    assumptions=["integer-valued data chosen so that every fold is exact in int64 and double", "mean/var/stddev/vector_norm compared with 1e-9 relative tolerance (own comparison)",
+                 "reductions over bitwise ops are not provided by the library (no reduce_bitwise_*); logical_and/or are driven through their 2-argument form"],
+    min_outcomes=2000,
+)
+
+CHECKS["C18"] = dict(
+    level="exploration", engine="E1", technique=E1_TECH,
+    level_note="trusted: the definition of equality coded in the harness (same shape and all elements equal / all differences below eps), g++ 12. "
+               "Two builds of the same harness: -DNDEBUG (assertions compiled out, as in the repository's own test build) and assertions on (an abort is a violation: the comparison must be total).",
+    level_text="All ordered pairs of arrays with shapes from S(1..3,3) (same shape; same size but different shape; different sizes) in three array kinds "
+               "(dynamic, bounded-shape, lazy view) x contents equal / perturbed at every single position (isclose: perturbed by 0.5, 2 and 64 eps), all "
+               "index-array pairs of lengths 1..4 in 4x4 container kinds, scalars, optionals (empty/full), eithers, tuples: isequal/isclose must return "
+               "the defined answer, be symmetric and reflexive, and must not abort.",
+    units=[U("isequal_ndebug", "harness/c18_isequal.cpp", flags=["-DNDEBUG"], family="isequal"),
+           U("isequal_assert", "harness/c18_isequal.cpp", family="isequal", shadow=True),
+           U("isequal_san", "harness/c18_isequal.cpp", flags=["-DNDEBUG"], san=True, family="isequal", shadow=True)],
+    rule="case = (kinds, shape a, shape b, perturbed position); non-trivial = shapes differ or one element differs; distinct = distinct key",
+    bounds=dict(quick="S(1..3,3)^2 shape pairs; index arrays 1..4; kinds: 3 array kinds (diagonal + dynamic row), 4x4 index kinds", thorough="all 3x3 array kind pairs"),
+    assumptions=["pairs of two fixed-size packed operands of different length are rejected by a static_assert (loud) and not instantiated"],
+    min_outcomes=100,
+)
